@@ -162,6 +162,27 @@ pub fn parse_sri(op: &Value, k: &str) -> Integrity {
 
 pub fn build_opts(o: &Value) -> WriteOpts {
     let mut w = WriteOpts::new();
+    // a caller that configures an option and later changes its mind: every option of "first" is set, then the real ones
+    if let Some(f) = o.get("first") {
+        if let Some(a) = opt_s(f, "algo") {
+            w = w.algorithm(parse_algo(a));
+        }
+        if let Some(n) = f.get("size").and_then(|v| v.as_u64()) {
+            w = w.size(n as usize);
+        }
+        if let Some(i) = opt_s(f, "sri") {
+            w = w.integrity(i.parse::<Integrity>().unwrap());
+        }
+        if let Some(t) = opt_s(f, "time") {
+            w = w.time(t.parse::<u128>().unwrap());
+        }
+        if let Some(m) = f.get("meta") {
+            w = w.metadata(m.clone());
+        }
+        if let Some(r) = opt_s(f, "raw") {
+            w = w.raw_metadata(hex::decode(r).unwrap());
+        }
+    }
     if let Some(a) = opt_s(o, "algo") {
         w = w.algorithm(parse_algo(a));
     }
